@@ -49,7 +49,10 @@ class C04(Prop):
                 child = {"self_exit": None, "ignore_all": True, "kill_delay": 3000}
                 slow.append({"id": 0, "monitor_only": "slow-death", "script": {"children": [child, dict(child)], "spawn_fail": [], "signal_fail": [], "kill_fail": []},
                              "ops": ops, "waiters": 1, "tail": 8000})
-        return job_check(self, "thorough" if deep else tier, seed, monitor, slow)
+        c = job_check(self, "thorough" if deep else tier, seed, monitor, slow)
+        if not c.errors:
+            mt_check(c, "c04", seed, 24 if tier == "quick" and not deep else 300, mt_monitor_overlap)
+        return c
 
 
 PROP = C04()
